@@ -1173,6 +1173,11 @@ class World:
                 return VFunc("dict." + name, lambda ex_, a, k: VIter(name, [d]))
             if name == "update":
                 def upd(ex_, a, k):
+                    if not a and k:
+                        w.ext.mutated(ex_, d, "update")
+                        for kk, vv in k.items():
+                            d.items[kk] = (z3.BoolVal(True), vv)
+                        return VNone()
                     o = a[0]
                     if not isinstance(o, VDict):
                         raise Unsupported("dict.update with %r" % (o,))
@@ -1254,6 +1259,9 @@ class World:
         """dict key comparison: identity or ==; a class used as key compares by identity"""
         if isinstance(key, VCls):
             self.ext.use(ex, "dict keyed by classes: class == class is identity")
+            return stored == kb
+        if isinstance(key, VStr):
+            self.ext.use(ex, "dict lookup with a str key: an entry matches iff its key is that str value (no foreign __eq__)")
             return stored == kb
         return z3.Or(stored == kb, sym.py_eq(stored, kb))
 
